@@ -105,8 +105,16 @@ func (wal *WriteAheadLog[T, PT]) Append(value T) error {
 	if err != nil {
 		return fmt.Errorf("saving value to WAL: %w", err)
 	}
-	_, err = buf.WriteTo(wal.active.file)
+	n, err := buf.WriteTo(wal.active.file)
 	if err != nil {
+		// A failed write may have left the first bytes of the entry in the file. Readers stop
+		// at the first entry they cannot parse, so drop the fragment: otherwise every entry
+		// appended to this file afterwards would be lost.
+		if n > 0 {
+			if off, serr := wal.active.file.Seek(-n, io.SeekCurrent); serr == nil {
+				_ = wal.active.file.Truncate(off)
+			}
+		}
 		return fmt.Errorf("writing buffer to file: %w", err)
 	}
 
